@@ -4,7 +4,7 @@
  * evws_new_session().  Each scenario is one TCP connection made by a raw
  * client socket owned by this driver.
  *
- * stdin : one scenario per line {"h":[op,...]}
+ * stdin : one scenario per line {"h":[op,...]}  (+ "full":1 to get all bytes written back as hex, not only 96)
  *   {"a":"open","req":"<bytes of the HTTP upgrade request>"}
  *   {"a":"send","ch":[chunk,...]}   one write of client bytes; chunk =
  *        {"b":[byte,...]}                              literal bytes
@@ -50,7 +50,7 @@ static int alive;               /* session exists and its close callback has not
 static int nsessions, nclosed, upgrade_failed;
 static long long in_base, in_added, written; /* server-side input accounting / client bytes written after the handshake */
 static long long out_deleted, rx_total;      /* bytes the server handed to its socket / bytes the client received */
-static int client_eof, wr_dead, watchdog;
+static int client_eof, wr_dead, watchdog, full_wb;
 static unsigned char *wb; static size_t wblen, wbcap;   /* bytes received by the client in this step */
 static char msglog[1 << 16]; static size_t msglen; static int nmsg;
 
@@ -203,7 +203,7 @@ static unsigned char *pattern(jval *p, long long off, long long len, jval *k)
 
 static void print_obs(const char *extra)
 {
-	size_t hx = wblen < 96 ? wblen : 96;
+	size_t hx = (full_wb || wblen < 96) ? wblen : 96;   /* "full":1 in the scenario: report every byte written back */
 	fprintf(out, "{\"msgs\":[%s],\"closed\":%d,\"eof\":%d,\"alive\":%d,\"wd\":%d,\"wb\":{\"n\":%zu,\"crc\":%u,\"hex\":\"",
 	    msglog, nclosed, client_eof, alive, watchdog, wblen, crc32_of(wb, wblen));
 	for (size_t i = 0; i < hx; i++) fprintf(out, "%02x", wb[i]);
@@ -288,6 +288,7 @@ static void exec_op(jval *op)
 static void run_scenario(jval *sc)
 {
 	jval *h = j_get(sc, "h");
+	full_wb = (int)j_int(sc, "full", 0);
 	cfd = -1; evws = NULL; alive = 0; nsessions = nclosed = upgrade_failed = 0;
 	in_base = in_added = written = 0; client_eof = wr_dead = watchdog = 0; out_deleted = rx_total = 0;
 	wblen = 0; msglen = 0; msglog[0] = 0; nmsg = 0;
